@@ -137,6 +137,35 @@ def defined_attribute_wildcard(root, open_findings):
     return result('C09.defined_attribute_wildcard', 'an XSD 1.1 attribute wildcard with notQName="##defined": single document vs the global attribute moved to an included document, 2 probes', 2, fails, exhaustive=True, known=known)
 
 
+def chameleon_import_orders(root):
+    """one chameleon document (no target namespace) included both by a schema of namespace urn:b and by a schema without target namespace; the main schema imports urn:a, urn:b
+    and the no-namespace schema in every order: same components, same verdicts"""
+    import itertools
+    fails = []; n = 0
+    for ver in ('1.0', '1.1'):
+        d = os.path.join(root, f'cham{ver}'); os.makedirs(d, exist_ok=True)
+        open(os.path.join(d, 'common.xsd'), 'w').write(f'<xs:schema {XS}><xs:simpleType name="codeType"><xs:restriction base="xs:string"><xs:maxLength value="3"/></xs:restriction></xs:simpleType></xs:schema>')
+        open(os.path.join(d, 'a.xsd'), 'w').write(f'<xs:schema {XS} targetNamespace="urn:a"><xs:element name="ea" type="xs:int"/></xs:schema>')
+        open(os.path.join(d, 'b.xsd'), 'w').write(f'<xs:schema {XS} targetNamespace="urn:b" xmlns:b="urn:b"><xs:include schemaLocation="common.xsd"/><xs:element name="eb" type="b:codeType"/></xs:schema>')
+        open(os.path.join(d, 'n.xsd'), 'w').write(f'<xs:schema {XS}><xs:include schemaLocation="common.xsd"/><xs:element name="en" type="codeType"/></xs:schema>')
+        imps = {'a': '<xs:import namespace="urn:a" schemaLocation="a.xsd"/>', 'b': '<xs:import namespace="urn:b" schemaLocation="b.xsd"/>', 'n': '<xs:import schemaLocation="n.xsd"/>'}
+        probes = ['<t:m xmlns:t="urn:t"><en>abc</en></t:m>', '<t:m xmlns:t="urn:t"><en>abcd</en></t:m>', '<t:m xmlns:t="urn:t"><b:eb xmlns:b="urn:b">abcd</b:eb></t:m>', '<t:m xmlns:t="urn:t"><a:ea xmlns:a="urn:a">x</a:ea></t:m>']
+        results = {}
+        for order in itertools.permutations('abn'):
+            n += 1
+            open(os.path.join(d, 'main.xsd'), 'w').write(f'<xs:schema {XS} targetNamespace="urn:t">' + ''.join(imps[k] for k in order) +
+                                                       '<xs:element name="m"><xs:complexType><xs:sequence><xs:any namespace="##any" processContents="strict" maxOccurs="unbounded"/></xs:sequence></xs:complexType></xs:element></xs:schema>')
+            try:
+                sch = _cls(ver)(os.path.join(d, 'main.xsd'))
+                results[order] = (sorted((type(c).__name__, c.name) for c in sch.maps.iter_globals() if c.name and not c.name.startswith('{http://www.w3.org/')), [[e.reason for e in sch.iter_errors(p)] for p in probes])
+            except Exception as e: results[order] = ('EXC', type(e).__name__, str(e)[:100])
+        ref = results[('n', 'b', 'a')]
+        if ref[0] == 'EXC': raise RuntimeError(f'harness: the reference arrangement does not build: {ref}')
+        for order, r in results.items():
+            if r != ref: fails.append(dict(case=dict(chameleon=True, ver=ver, order=''.join(order)), observed=str(r)[:300], required='same global components and verdicts as with the imports in the order n, b, a'))
+    return result('C09.chameleon_import_orders', 'a chameleon document included by a namespaced and by a no-namespace schema; the three imports of the main schema in all 6 orders x 2 classes x 4 probes', n, fails, exhaustive=True)
+
+
 def run(tier, seed, open_findings):
     root = tempfile.mkdtemp(prefix='verif_c09_')
     try:
@@ -149,7 +178,7 @@ def run(tier, seed, open_findings):
             if got != refs[ver]:
                 diff = got if got and got[0] == 'EXC' else ('globals differ' if got[0] != refs[ver][0] else 'probe results differ')
                 fails.append(dict(case=dict(ver=ver, kind=kind, seed=sd), observed=diff, required='same global components, errors and data as the reference arrangement'))
-        return [defined_attribute_wildcard(root, open_findings), result('C09.arrangements', f'{len(jobs)} arrangements ({", ".join(KINDS)}) x {len(PROBES)} probe instances, both classes', len(jobs) * len(PROBES), fails,
+        return [chameleon_import_orders(root), defined_attribute_wildcard(root, open_findings), result('C09.arrangements', f'{len(jobs)} arrangements ({", ".join(KINDS)}) x {len(PROBES)} probe instances, both classes', len(jobs) * len(PROBES), fails,
                        samples=[dict(kind='spell', note='the same file included twice under two spellings')], distinct=len(jobs))]
     finally:
         shutil.rmtree(root, ignore_errors=True)
@@ -158,6 +187,8 @@ def run(tier, seed, open_findings):
 def replay(check_name, case):
     root = tempfile.mkdtemp(prefix='verif_c09_')
     try:
+        if case.get('chameleon'):
+            r = chameleon_import_orders(root); mine = [f for f in r['failures'] if f['case'] == case]; return dict(ok=not mine, observed=mine[:1], required='same components in every import order')
         if case.get('defined_attr'):
             r = defined_attribute_wildcard(root, {}); return dict(ok=not r['failures'], observed=r['failures'][:1], required='same errors')
         got = eval_arrangement((case['ver'], case['kind'], case['seed'], root))
